@@ -1,6 +1,8 @@
 """C17 - parsing untrusted bytes fails cleanly."""
 from __future__ import annotations
 
+import os
+import subprocess
 import time
 
 from .. import common, suitio, suitcases, cbortree as ct
@@ -381,8 +383,53 @@ def run(tier: str, seed: int) -> int:
                 res.sample({"kind": k, "input": b.hex()[:160] + ("..." if len(b) > 80 else "")})
                 break
     res.notes["guards"] = st.extract_notes.get("guards")
+    cli_sample(res, tier, [(b, kind, cls) for (b, _), kind, (cls, _, _) in zip(items, kinds, outs)])
     deep_rejections(res, tier)
     return finish(res, st, RULE, NOTE)
+
+
+def cli_sample(res, tier, triples):
+    """the same bytes through the real `parse` command (file reading, option handling, output writing around the parser): one input of every kind of
+    mutation; an accepted envelope ends with exit status 0, a rejected one with another status and the parser's own error class - never success,
+    never an unrelated error"""
+    import re
+    import tempfile
+    from concurrent.futures import ThreadPoolExecutor
+    per_kind = {}
+    for b, kind, cls in triples:
+        if len(b) < 20000:
+            per_kind.setdefault((kind.split(":")[0], cls == "ok"), []).append((b, kind, cls))
+    chosen = []
+    for key in sorted(per_kind):
+        chosen += per_kind[key][: (2 if tier == "quick" else 12)]
+    chosen = chosen[: (60 if tier == "quick" else 600)]
+    with tempfile.TemporaryDirectory(prefix="verif_c17cli_") as d:
+        def one(k):
+            b = chosen[k][0]
+            f = os.path.join(d, f"in{k}.suit")
+            open(f, "wb").write(b)
+            out = os.path.join(d, f"out{k}.yaml")
+            try:
+                rc, log = common.run_cli(["parse", "--input-file", f, "--output-file", out], d, timeout=60)
+            except subprocess.TimeoutExpired:
+                return None, "", False
+            return rc, log, os.path.exists(out) and os.path.getsize(out) > 0
+        with ThreadPoolExecutor(max_workers=14) as ex:
+            outs = list(ex.map(one, range(len(chosen))))
+    for (b, kind, cls), (rc, log, wrote) in zip(chosen, outs):
+        res.case(["cli-parse", b.hex()[:64], kind], nontrivial=True)
+        res.count("cli:parse:" + ("accepted" if rc == 0 else "refused"))
+        last = [ln for ln in log.strip().splitlines() if re.match(r"^[A-Za-z_.]*(Error|Exception|Exit|Interrupt)\b", ln)]
+        err = last[-1].split(":")[0].split(".")[-1] if last else None
+        if rc is None:
+            res.spec_failures.append({"input": b.hex(), "kind": "cli:" + kind, "what": "the parse command gave no answer within 60 s"})
+        elif cls == "ok" and rc != 0:
+            res.spec_failures.append({"input": b.hex(), "kind": "cli:" + kind, "exit": rc, "error": err, "what": "the parse command fails on an envelope the parser accepts"})
+        elif cls != "ok" and rc == 0:
+            res.spec_failures.append({"input": b.hex(), "kind": "cli:" + kind, "library": cls, "output_written": wrote,
+                                      "what": "the parse command reports success (exit 0) for bytes the parser rejects"})
+        elif cls != "ok" and err is not None and err not in ("ValueError", "SUITError", "GeneratorError"):
+            res.spec_failures.append({"input": b.hex(), "kind": "cli:" + kind, "error": err, "what": "the parse command ends with an unrelated internal error for malformed bytes"})
 
 
 def replay(payload: dict) -> int:
